@@ -282,7 +282,24 @@ func c18Gen(c *core.Case, o *core.Outcome) {
 		stopReturnSeq = l.Add("stop.return", "", "", 0, "")
 	case "cancel":
 		l.Add("cancel", "", "", 0, "")
+		rc.mu.Lock()
+		n0 := len(rc.invs)
+		rc.mu.Unlock()
 		cancel()
+		// as with Stop: the cancellation is noticed within a few dispatches
+		for w := 0; w < 100; w++ {
+			time.Sleep(20 * time.Millisecond)
+			rc.mu.Lock()
+			n := len(rc.invs) - n0
+			rc.mu.Unlock()
+			if n >= 40 {
+				o.Violate("cancel-ignored:"+p.Desc, "the runner's context was cancelled and the function was invoked %d more times: the runner never looks at the cancellation (%s)", n, p.Desc)
+				return
+			}
+			if rc.inflight.Load() == 0 && w >= 2 {
+				break
+			}
+		}
 	case "cancel-then-stop":
 		l.Add("cancel", "", "", 0, "")
 		cancel()
@@ -343,12 +360,27 @@ func c18Gen(c *core.Case, o *core.Outcome) {
 // executing is the bounded-progress violation of "Stop returns once the runner is quiescent".
 func c18BoundedStop(o *core.Outcome, runner *raterun.Runner, rc *c18Rec, desc string) bool {
 	done := make(chan struct{})
+	count := func() int {
+		rc.mu.Lock()
+		defer rc.mu.Unlock()
+		return len(rc.invs)
+	}
+	n0 := count()
 	go func() { runner.Stop(); close(done) }()
 	deadline := time.After(15 * time.Second)
+	tick := time.NewTicker(20 * time.Millisecond)
+	defer tick.Stop()
 	for {
 		select {
 		case <-done:
 			return true
+		case <-tick.C:
+			// a pending Stop competes with due ticks for the runner's attention and wins each round with
+			// probability 1/2 at least: 40 further invocations mean it never gets its turn
+			if n := count() - n0; n >= 40 {
+				o.Violate("stop-starved:"+desc, "Stop was called and had not returned after %d further invocations of the function: the runner keeps dispatching ticks and never looks at the stop request (%s)", n, desc)
+				return false
+			}
 		case <-deadline:
 			if rc.inflight.Load() == 0 {
 				o.Violate("stop-hangs:"+desc, "Stop did not return within 15 s although the function is not executing (%s)", desc)
